@@ -271,4 +271,90 @@ Proof.
   - eapply perm_trans; [apply Permutation_sym, (sort_by_perm EK)|]. rewrite E2. apply sort_by_perm.
 Qed.
 
+(* ---------------- nauty label strings ---------------- *)
+Definition NS (c : list N * Z * bool * Z) : str := let '(e, c0, a, h) := c in join 58%N [e; pybool a; decZ c0; decZ h].
+Lemma node_str_cov g v : node_str g v = NS (ncov (attr_of g v)).
+Proof. unfold node_str, NS, ncov. destruct (attr_of g v). reflexivity. Qed.
+Definition EB (o : option (Z * option Z)) : str :=
+  match o with
+  | Some (o, s) => 49%N :: 58%N :: fl o ++ 58%N :: (match s with Some s => fl s | None => [] end)
+  | None => [48%N; 58%N; 58%N]
+  end.
+Lemma edge_bit_cov g ab : edge_bit g ab = EB (option_map ecov (adj g (fst ab) (snd ab))).
+Proof.
+  unfold edge_bit, EB. destruct (adj g (fst ab) (snd ab)) as [[o s]|]; [|reflexivity].
+  cbn [option_map ecov eo es]. change (lit "1:") with [49%N; 58%N]. change (lit ":") with [58%N].
+  cbn [app]. rewrite <- ?app_assoc. reflexivity.
+Qed.
+
+Lemma NS_inj c1 c2 : el_ok (fst (fst (fst c1))) -> el_ok (fst (fst (fst c2))) -> NS c1 = NS c2 -> c1 = c2.
+Proof.
+  destruct c1 as [[[e c] a] h], c2 as [[[e' c'] a'] h']. cbn [fst]. unfold el_ok, NS. intros He He' E.
+  apply join_inj in E; try discriminate.
+  - inversion E as [[E1 E2 E3 E4]]. apply pybool_inj in E2. apply decZ_inj in E3, E4. subst. reflexivity.
+  - repeat constructor; nosep.
+  - repeat constructor; nosep.
+Qed.
+Lemma NS_nosep c : el_ok (fst (fst (fst c))) -> nosep 124%N (NS c).
+Proof.
+  destruct c as [[[e c] a] h]. cbn [fst]. unfold el_ok, NS. intros He.
+  apply join_nosep; [discriminate|]. repeat constructor; nosep.
+Qed.
+Lemma EB_inj o1 o2 : EB o1 = EB o2 -> o1 = o2.
+Proof.
+  destruct o1 as [[o s]|], o2 as [[o' s']|]; unfold EB; intros E; try discriminate; auto.
+  inversion E as [E1]. clear E. apply app_sep_inj in E1; [|nosep|nosep]. destruct E1 as [E1 E2].
+  apply fl_inj in E1. subst o'.
+  destruct s as [s|], s' as [s'|]; auto.
+  - apply fl_inj in E2. subst. reflexivity.
+  - exfalso. apply (fl_not_nil _ E2).
+  - exfalso. symmetry in E2. apply (fl_not_nil _ E2).
+Qed.
+Lemma EB_nosep o : nosep 124%N (EB o).
+Proof. destruct o as [[o [s|]]|]; unfold EB; nosep. Qed.
+Lemma EB_not_nil o : EB o <> [].
+Proof. destruct o as [[o s]|]; discriminate. Qed.
+
+Lemma node_str_inj g h u v : el_ok (el (attr_of g u)) -> el_ok (el (attr_of h v)) ->
+  node_str g u = node_str h v -> ncov (attr_of g u) = ncov (attr_of h v).
+Proof. intros H1 H2 E. rewrite !node_str_cov in E. apply NS_inj in E; auto. Qed.
+Lemma edge_bit_inj g h ab cd : edge_bit g ab = edge_bit h cd ->
+  option_map ecov (adj g (fst ab) (snd ab)) = option_map ecov (adj h (fst cd) (snd cd)).
+Proof. intros E. rewrite !edge_bit_cov in E. apply EB_inj. exact E. Qed.
+
+Lemma map_transfer {A A' B C} (f : A -> B) (f' : A' -> B) (k : A -> C) (k' : A' -> C) :
+  forall l l', (forall x y, In x l -> In y l' -> f x = f' y -> k x = k' y) -> map f l = map f' l' -> map k l = map k' l'.
+Proof.
+  induction l as [|x l IH]; intros [|y l'] H E; try discriminate; auto.
+  inversion E. simpl. f_equal; [apply H; simpl; auto|apply IH; auto]. intros; apply H; simpl; auto.
+Qed.
+
+Theorem nlabel_inj g h p q : length p = length q ->
+  (forall v, In v p -> el_ok (el (attr_of g v))) -> (forall v, In v q -> el_ok (el (attr_of h v))) ->
+  nlabel g p = nlabel h q ->
+  map (fun v => ncov (attr_of g v)) p = map (fun v => ncov (attr_of h v)) q /\
+  map (fun ab => option_map ecov (adj g (fst ab) (snd ab))) (pairs p)
+  = map (fun ab => option_map ecov (adj h (fst ab) (snd ab))) (pairs q).
+Proof.
+  intros Hl Hp Hq E.
+  destruct p as [|p0 p]; [destruct q; [auto|discriminate]|]. destruct q as [|q0 q]; [discriminate|].
+  unfold nlabel, node_seg in E. change (lit "||") with [124%N; 124%N] in E. cbn [app] in E.
+  apply join_prefix_inj in E.
+  - destruct E as [E1 E2]. split.
+    + revert E1. apply map_transfer. intros x y Hx Hy. apply node_str_inj; auto.
+    + inversion E2 as [E3]. clear E2. apply join_inj0 in E3.
+      * revert E3. apply map_transfer. intros x y _ _. apply edge_bit_inj.
+      * apply Forall_forall. intros x I. apply in_map_iff in I. destruct I as (c & <- & _). rewrite edge_bit_cov. apply EB_nosep.
+      * apply Forall_forall. intros x I. apply in_map_iff in I. destruct I as (c & <- & _). rewrite edge_bit_cov. apply EB_nosep.
+      * apply Forall_forall. intros x I. apply in_map_iff in I. destruct I as (c & <- & _). rewrite edge_bit_cov. apply EB_not_nil.
+      * apply Forall_forall. intros x I. apply in_map_iff in I. destruct I as (c & <- & _). rewrite edge_bit_cov. apply EB_not_nil.
+  - rewrite !map_length. exact Hl.
+  - discriminate.
+  - apply Forall_forall. intros x I. apply in_map_iff in I. destruct I as (c & <- & I). rewrite node_str_cov. apply NS_nosep.
+    unfold ncov. cbn [fst]. apply Hp. exact I.
+  - apply Forall_forall. intros x I. apply in_map_iff in I. destruct I as (c & <- & I). rewrite node_str_cov. apply NS_nosep.
+    unfold ncov. cbn [fst]. apply Hq. exact I.
+Qed.
+
 Print Assumptions serialise_inj.
+Print Assumptions nlabel_inj.
